@@ -107,6 +107,11 @@ class LDMService:
             )
             if ordered_sequences:
                 ordered_search_result = ordered_sequences[0]
+        with self._lock:
+            # A subscription removed since the attendance started (unsubscribed from the callback of another
+            # subscription, or by another thread) is not notified any more.
+            if subscription not in self.subscriptions:
+                return
         self.process_notifications(subscription, ordered_search_result)
 
     def search_data(self, subscription: SubscriptionInfo) -> tuple[dict, ...]:
